@@ -76,6 +76,12 @@ fn probe_files() -> Vec<(String, String)> {
         ("src/mod/init.lua".into(), "-- folder module\nreturn { mod = true }\n".into()),
         ("lib/extra.lua".into(), "return 'extra'\n".into()),
         ("header.txt".into(), "header from file\nsecond line".into()),
+        // alias requires in files of their own (an unresolved alias fails the whole file): one alias
+        // comes from a .luaurc (read unless use_luau_configuration is false), one only from the
+        // configuration's own sources / aliases
+        (".luaurc".into(), "{ \"aliases\": { \"libs\": \"./lib\" } }".into()),
+        ("src/alias_rc.lua".into(), "local extra = require(\"@libs/extra\")\nreturn extra\n".into()),
+        ("src/alias_cfg.lua".into(), "local extra = require(\"@pkg/extra\")\nreturn extra\n".into()),
     ]
 }
 
